@@ -62,19 +62,23 @@ def _matrix(draw):
             "nm": draw(st.integers(300, 1200))}
 
 
-def _prog(depth):
-    unit = st.one_of(st.tuples(st.just("energy"), st.sampled_from(MUNITS + ["nm"])),
-                     st.tuples(st.just("frequency"), st.sampled_from(FUNITS)),
-                     st.tuples(st.just("length"), st.sampled_from(LUNITS)))
+def _prog(depth, prefer=None):
+    kinds = {"energy": st.tuples(st.just("energy"), st.sampled_from(MUNITS + ["nm"])),
+             "frequency": st.tuples(st.just("frequency"), st.sampled_from(FUNITS)),
+             "length": st.tuples(st.just("length"), st.sampled_from(LUNITS))}
+    unit = st.one_of(kinds["energy"], kinds["frequency"], kinds["length"])
+    if prefer is not None:
+        # half of the contexts opened inside another one change the same type of units again
+        unit = st.one_of(kinds[prefer], unit)
     leaf = st.one_of(st.just({"s": "probe"}), st.builds(lambda n: {"s": "raise", "levels": n}, st.integers(1, 3)),
                      st.just({"s": "probe"}))
     if depth == 0:
         return st.lists(leaf, max_size=2)
-    inner = _prog(depth - 1)
     # "pre": the context-manager object is created once at the start of the program (under the default units) and
     # entered here - the pattern `e_units = qr.energy_units("1/cm") ... with e_units:` of the library's examples
-    ctx = st.builds(lambda u, b, pre: {"s": "ctx", "utype": u[0], "unit": u[1], "body": b, "pre": pre}, unit, inner,
-                    st.sampled_from([False, False, True]))
+    ctx = unit.flatmap(lambda u: st.builds(
+        lambda b, pre: {"s": "ctx", "utype": u[0], "unit": u[1], "body": b, "pre": pre},
+        _prog(depth - 1, prefer=u[0]), st.sampled_from([False, False, True])))
     return st.lists(st.one_of(ctx, ctx, leaf), min_size=1, max_size=3)
 
 
